@@ -5,6 +5,7 @@ import LexVerif.Proof.WriteRadixFrac
 import LexVerif.Proof.WriteRadixIntText
 import LexVerif.Proof.WriteRadixRound
 import LexVerif.Proof.WriteRadixError
+import LexVerif.Proof.WriteRadixMid
 import Mathlib.Tactic.SplitIfs
 /-!
 # C07 — generic-radix float output
@@ -119,7 +120,7 @@ section RadixFull
 open LexVerif.Model LexVerif.Model.WriteRadix LexVerif.Model.WriteRadixInt
 open LexVerif.Proof.WriteRadixF LexVerif.Proof.WriteRadixWF LexVerif.Proof.WriteRadixTerm
 open LexVerif.Proof.WriteRadixTermInt LexVerif.Proof.WriteRadixFrac LexVerif.Proof.WriteRadixInteger
-open LexVerif.Proof.WriteRadixRound LexVerif.Proof.WriteRadixError
+open LexVerif.Proof.WriteRadixRound LexVerif.Proof.WriteRadixError LexVerif.Proof.WriteRadixMid
 open LexVerif.Model.WriteInt (Res)
 
 /-- binary32 or binary64 (radix.rs runs in the float's own type) -/
@@ -448,16 +449,65 @@ theorem radix_fraction_digit_lt {f : Fmt} (hf : StdFmt f) {r : Nat} (hr : r ∈ 
     (hx : x < one f) : asU32 f (fmul f x (ofNat f r)) < r :=
   fracDigit_lt hf.fok (genericRadices_bounds r hr).2 (hf.radix_lt (genericRadices_bounds r hr).2) (hf.predOne hr) hx
 
-/-- digit VALUE of a byte of the scratch buffer (`0-9`, `A-Z`) -/
-def byteDigit (c : Nat) : Nat := if c < 58 then c - 48 else c - 55
-
-/-- **C07 ulp clause, full statement (NOT proved; measured by the exact judge on every output of the stream).**
+/-- **C07 ulp clause, full statement (proved parts: `radix_error_bound_mid_partial`; otherwise measured by the exact
+judge on every output of the stream).**
 For every finite binary32/binary64 pattern and every generic radix, the digits `ints . fracs` the writer generates
 denote a number whose nearest float is within 2048 (f64) / 256 (f32) patterns of the input. -/
 def C07_radix_error_bound : Prop :=
   ∀ (f : Fmt), StdFmt f → ∀ r ∈ genericRadices, ∀ bits < f.infBits, ∀ g, generate true f r bits = .ok g →
     ulpDist (roundNE f (ofDigits r ((g.ints ++ g.fracs).map byteDigit)) (r ^ g.fracs.length)) bits
       ≤ (if f = f64 then 2048 else 256)
+
+theorem StdFmt.mid {f : Fmt} (h : StdFmt f) : MidFmt f := by
+  rcases h with rfl | rfl; exacts [midFmt_f64, midFmt_f32]
+
+/-- **C07 ulp clause, proved for `1 ≤ |x| < 2^p`** (`2^53` / `2^24`), every generic radix, binary32 and binary64:
+the digits the writer generates denote a number whose nearest float is at most **34 patterns (ulps of the original
+float's neighbourhood)** from the input — at most 17 above, at most 34 below (the value is within 16.5 ulp of the
+input: half an ulp from `delta`, 16 ulp from the accumulated roundings; below a power of two the spacing halves).
+At most `2p` digits are generated, so `PositionalFits` holds and the text is laid out from all of them
+(`layout_keeps_all_digits`, default `max_significant_digits`). The judge's limits are 2048 / 256. -/
+theorem radix_error_bound_mid_partial {f : Fmt} (hf : StdFmt f) {r : Nat} (hr : r ∈ genericRadices) {bits : Nat}
+    (h1 : one f ≤ bits) (h2 : bits < (f.bias + f.p) * 2 ^ (f.p - 1)) {g : Gen}
+    (hg : generate true f r bits = .ok g) :
+    ulpDist (roundNE f (ofDigits r ((g.ints ++ g.fracs).map byteDigit)) (r ^ g.fracs.length)) bits ≤ 34
+    ∧ PositionalFits g := by
+  obtain ⟨h3, h36⟩ := genericRadices_bounds r hr
+  obtain ⟨e1, e2⟩ := error_mid hf.mid h3 h36 (hf.predOne hr) h1 h2 hg
+  refine ⟨e1, ?_⟩
+  unfold PositionalFits maxDigitLength
+  have : 2 * f.p ≤ 232 := by rcases hf with rfl | rfl <;> decide
+  omega
+
+/-- the range of `radix_error_bound_mid_partial` in bit patterns: `[1.0, 2^p)` -/
+example : one f64 = 0x3ff0000000000000 ∧ (f64.bias + f64.p) * 2 ^ (f64.p - 1) = 0x4340000000000000
+    ∧ one f32 = 0x3f800000 ∧ (f32.bias + f32.p) * 2 ^ (f32.p - 1) = 0x4b800000 := by decide +kernel
+
+/-- non-vacuity: binary32 10.7 in radix 3 -/
+example : ∃ g, generate true f32 3 0x412b3333 = .ok g ∧
+    ulpDist (roundNE f32 (ofDigits 3 ((g.ints ++ g.fracs).map byteDigit)) (3 ^ g.fracs.length)) 0x412b3333 ≤ 34 := by
+  obtain ⟨g, hg, _⟩ := radix_generate_total true (Or.inr rfl : StdFmt f32) (r := 3) (by decide) (by decide)
+    (bits := 0x412b3333) (by decide)
+  exact ⟨g, hg, (radix_error_bound_mid_partial (Or.inr rfl) (by decide) (by decide +kernel) (by decide +kernel) hg).1⟩
+
+/-- **the exclusion for the text** (finding C07-generic-radix-positional-truncation): the layout only looks at the
+first 232 bytes of the generated digits. `PositionalFits g` — integer and fraction digits together are at most 232 —
+is the exact condition under which (default `max_significant_digits`) the text is laid out from ALL generated digits:
+`layoutText = layoutAll`. -/
+theorem radix_layout_keeps_all_digits (fmt : Format) (feats : Features) (o : WOpts) (ho : o.maxDigits = none)
+    (r : Nat) (g : Gen) (hfit : PositionalFits g) : layoutText fmt feats o r g = layoutAll fmt feats o g :=
+  layout_keeps_all_digits fmt feats o ho r g hfit
+
+/-- decided witness of the excluded case: 232 fraction zeros followed by `1` (a value `3^-233`; such buffers arise,
+e.g. corpus op `wf f64 6060…0c e05fa782cd98f39 - - 1 -700 …` replayed through the correspondence) do not fit, and the
+positional text is `"0."` — the only significant digit is gone, while the layout of all digits keeps it -/
+theorem positional_truncation_witness :
+    let g : Gen := ⟨[48], List.replicate 232 48 ++ [49], []⟩
+    ¬ PositionalFits g
+    ∧ (layoutText fmt3 featsRadix { negBreak := some (-700) } 3 g).bind (fun t => .ok t.text) = .ok [48, 46]
+    ∧ (layoutAll fmt3 featsRadix { negBreak := some (-700) } g).bind (fun t => .ok t.text)
+        = .ok ([48, 46] ++ List.replicate 232 48 ++ [49]) := by
+  refine ⟨by decide +kernel, by decide +kernel, by decide +kernel⟩
 
 end RadixFull
 
